@@ -42,6 +42,7 @@ def handle (line : String) : String :=
   | "width" :: args => Driver.WidthP.handle args
   | "widthspec" :: args => Driver.WidthP.handleSpec args
   | "refcmp" :: args => Driver.RefP.cmpHandle args
+  | "refcanon" :: args => Driver.RefP.canonHandle args
   | "refsplit" :: args => Driver.RefP.splitHandle args
   | "refcompose" :: args => Driver.RefP.composeHandle args
   | "amp" :: args => Driver.PassP.handle "amp" args
